@@ -18,6 +18,7 @@ import (
 	"runtime/debug"
 	"sort"
 	"sync"
+	"sync/atomic"
 	"time"
 
 	"go.starlark.net/starlark"
@@ -189,6 +190,20 @@ func (l AL) step(o Op) (AL, Out) {
 			}
 		}
 		return r, Out{T: "none"}
+	case "issubset": // every element of l occurs in ks
+		for _, e := range l {
+			if !has(o.Ks, e.k) {
+				return l, Out{T: "bool"}
+			}
+		}
+		return l, Out{T: "bool", Found: true}
+	case "issuperset": // every element of ks is in l
+		for _, k := range o.Ks {
+			if l.find(k) < 0 {
+				return l, Out{T: "bool"}
+			}
+		}
+		return l, Out{T: "bool", Found: true}
 	case "setsymdiff":
 		r := make(AL, 0, len(l)+len(o.Ks))
 		for _, e := range l {
@@ -242,6 +257,9 @@ def s_diff_m(x, l): return x.difference(l)
 def s_diff_o(x, y): return x - y
 def s_symdiff_m(x, l): return x.symmetric_difference(l)
 def s_symdiff_o(x, y): return x ^ y
+def s_issubset_m(x, l): return x.issubset(l)
+def s_issuperset_m(x, l): return x.issuperset(l)
+def s_cmp(x, y): return (x <= y, x >= y, x < y, x > y, x == y, x != y)
 def s_obs(x): return (len(x), list(x), [k for k in x])
 `
 
@@ -629,6 +647,45 @@ func (s *Subject) applySet(o Op) Out {
 			must(err)
 		}
 		return Out{T: "none"}
+	case "issubset", "issuperset":
+		var b bool
+		if star {
+			if o.Form == 1 {
+				// operators against a set operand; all six comparisons must be coherent
+				y := s.keySet(o.Ks)
+				r, err := s.call("s_cmp", x, y)
+				must(err)
+				t := r.(starlark.Tuple)
+				le, ge, lt, gt, eq, ne := bool(t[0].(starlark.Bool)), bool(t[1].(starlark.Bool)), bool(t[2].(starlark.Bool)), bool(t[3].(starlark.Bool)), bool(t[4].(starlark.Bool)), bool(t[5].(starlark.Bool))
+				if eq != (le && ge) || ne == eq || lt != (le && !ge) || gt != (ge && !le) {
+					panic(violation{fmt.Sprintf("set comparisons incoherent: <= %v >= %v < %v > %v == %v != %v", le, ge, lt, gt, eq, ne)})
+				}
+				b = le
+				if o.Op == "issuperset" {
+					b = ge
+				}
+			} else {
+				r, err := s.call("s_"+o.Op+"_m", x, s.keyList(o.Ks))
+				must(err)
+				b = bool(r.(starlark.Bool))
+			}
+		} else {
+			var it starlark.Iterator
+			if o.Form == 1 {
+				it = s.keySet(o.Ks).Iterate()
+			} else {
+				it = s.keyList(o.Ks).Iterate()
+			}
+			var err error
+			if o.Op == "issubset" {
+				b, err = x.IsSubset(it)
+			} else {
+				b, err = x.IsSuperset(it)
+			}
+			it.Done()
+			must(err)
+		}
+		return Out{T: "bool", Found: b}
 	case "setunion", "setinter", "setdiff", "setsymdiff":
 		var r starlark.Value
 		var err error
@@ -666,8 +723,28 @@ func (s *Subject) applySet(o Op) Out {
 	panic("set: unknown op " + o.Op)
 }
 
+// boundedWalk iterates at most Len()+1 steps: a cyclic or overlong order list would
+// otherwise make Keys()/Items() run (and allocate) forever.
+func (s *Subject) boundedWalk() {
+	n := starlark.Len(s.x)
+	it := starlark.Iterate(s.x)
+	defer it.Done()
+	var k starlark.Value
+	c := 0
+	for it.Next(&k) {
+		c++
+		if c > n {
+			panic(violation{fmt.Sprintf("iteration yields more than len()=%d elements (order list cyclic or longer than len)", n)})
+		}
+		if k == nil {
+			panic(violation{"iteration yields a nil key (order list runs through an empty slot)"})
+		}
+	}
+}
+
 // observe reads len and the items in iteration order.
 func (s *Subject) observe() (int, [][2]int) {
+	s.boundedWalk()
 	if s.tkind == "dict" {
 		d := s.x.(*starlark.Dict)
 		if s.route == "star" {
@@ -859,6 +936,38 @@ type Mismatch struct {
 	Msg  string `json:"msg,omitempty"`
 }
 
+// subsetProbes: read-only subset / superset queries compared after an operation (sets only).
+func subsetProbes(l AL) []Op {
+	cur := make([]int, 0, len(l))
+	for i := len(l) - 1; i >= 0; i-- {
+		cur = append(cur, l[i].k) // the same elements, reversed
+	}
+	var ps []Op
+	for _, name := range []string{"issubset", "issuperset"} {
+		ps = append(ps, Op{Op: name, Ks: probeAll}, Op{Op: name, Ks: probeSome}, Op{Op: name, Ks: cur, Form: 1})
+	}
+	return ps
+}
+
+var (
+	probeAll  = []int{0, 1, 2, 3, 4}
+	probeSome = []int{2, 0, 2}
+)
+
+// checkSubsetProbes returns a description of the first query that differs from the oracle.
+func (s *Subject) checkSubsetProbes(l AL) string {
+	if s.tkind != "set" {
+		return ""
+	}
+	for _, p := range subsetProbes(l) {
+		_, want := l.step(p)
+		if got := s.apply(p); got != want {
+			return fmt.Sprintf("%s(%v) form %d = %v, the association list says %v", p.Op, p.Ks, p.Form, got.Found, want.Found)
+		}
+	}
+	return ""
+}
+
 // runHistory replays h; checkFrom: first op index whose observation is compared
 // (lookups of `probe` keys are compared too).  Returns nil when all agree.
 func runHistory(h History, checkFrom int, probe []int, cov *Cov) (mm *Mismatch) {
@@ -912,6 +1021,11 @@ func runHistory(h History, checkFrom int, probe []int, cov *Cov) (mm *Mismatch) 
 					}
 				}
 				return &Mismatch{Kind: "mismatch", Class: o.Op + cls, History: h, At: i, Got: got, Want: Obs{wo, len(l), alItems(l)}, Msg: fmt.Sprintf("lookup of key %d: found=%v value=%d", k, f, v)}
+			}
+		}
+		if probe != nil {
+			if msg := s.checkSubsetProbes(l); msg != "" {
+				return &Mismatch{Kind: "mismatch", Class: o.Op + ":subset-query", History: h, At: i, Got: got, Want: Obs{wo, len(l), alItems(l)}, Msg: msg}
 			}
 		}
 	}
@@ -1060,11 +1174,46 @@ func exhaustive(tkind, route, hname string, L, workers int, core bool) {
 	probe := []int{0, 1, 2, 3, 4}
 	type job struct{ a, b int }
 	jobs := make(chan job, 1024)
+	// watchdog: a worker that does not finish a history within 30 s is reported and the run ends
+	type slot struct {
+		start int64 // unix nano of the current history, 0 = idle
+		n     int32
+		seq   [16]int32
+	}
+	slots := make([]slot, workers)
+	doneCh := make(chan bool)
+	go func() {
+		for {
+			select {
+			case <-doneCh:
+				return
+			case <-time.After(3 * time.Second):
+			}
+			now := time.Now().UnixNano()
+			for w := range slots {
+				st := atomic.LoadInt64(&slots[w].start)
+				if st != 0 && now-st > int64(30*time.Second) {
+					n := int(atomic.LoadInt32(&slots[w].n))
+					ops := append([]Op{}, prefix...)
+					for i := 0; i < n; i++ {
+						ops = append(ops, alpha[slots[w].seq[i]](i))
+					}
+					hx.Emit(&Mismatch{Kind: "mismatch", Mode: "exh:" + hname, Class: ops[len(ops)-1].Op + ":hang",
+						History: History{TKind: tkind, Route: route, Hashes: hashes, Init: -1, Ops: ops}, At: len(ops) - 1,
+						Msg: "no answer within 30 s (loop in the table?)"})
+					hx.Emit(map[string]any{"kind": "exh", "tkind": tkind, "route": route, "hashes": hname, "len": L, "histories": 0, "op_executions": 0, "mismatches": 1, "aborted": "hang"})
+					hx.Flush()
+					os.Exit(0)
+				}
+			}
+		}
+	}()
 	var mu sync.Mutex
 	var tot exhStats
 	var wg sync.WaitGroup
 	for w := 0; w < workers; w++ {
 		wg.Add(1)
+		w := w
 		go func() {
 			defer wg.Done()
 			var st exhStats
@@ -1094,6 +1243,12 @@ func exhaustive(tkind, route, hname string, L, workers int, core bool) {
 				st.opExec += int64(len(ops))
 				bad := false
 				withCov := st.histories%16 == 0
+				for i, x := range seq {
+					slots[w].seq[i] = int32(x)
+				}
+				atomic.StoreInt32(&slots[w].n, int32(len(seq)))
+				atomic.StoreInt64(&slots[w].start, time.Now().UnixNano())
+				defer atomic.StoreInt64(&slots[w].start, 0)
 				func() {
 					defer func() {
 						if e := recover(); e != nil {
@@ -1141,6 +1296,9 @@ func exhaustive(tkind, route, hname string, L, workers int, core bool) {
 							bad = true
 							return
 						}
+					}
+					if s.checkSubsetProbes(want) != "" {
+						bad = true
 					}
 				}()
 				if bad {
@@ -1199,6 +1357,7 @@ func exhaustive(tkind, route, hname string, L, workers int, core bool) {
 	}
 	close(jobs)
 	wg.Wait()
+	close(doneCh)
 	// report distinct classes, shortest history first
 	sort.SliceStable(tot.first, func(i, j int) bool { return len(tot.first[i].Ops) < len(tot.first[j].Ops) })
 	seen := map[string]int{}
@@ -1313,6 +1472,26 @@ func randomHistory(r *hx.Rand, tkind, route, dist string, nops int) History {
 			o = Op{Op: "popfirst"}
 		case x < 96:
 			o = Op{Op: "lookup", K: r.Intn(universe)}
+			if tkind == "set" && r.Intn(2) == 0 {
+				// subset / superset queries: random collection, all live keys (+ extras), or a live subset
+				var ks []int
+				switch r.Intn(3) {
+				case 0:
+					ks = coll(1 + r.Intn(50))
+				case 1:
+					ks = append(append([]int{}, liveList...), coll(r.Intn(5))...)
+				default:
+					for _, k := range liveList {
+						if live[k] && r.Intn(3) != 0 {
+							ks = append(ks, k)
+						}
+					}
+				}
+				o = Op{Op: []string{"issubset", "issuperset"}[r.Intn(2)], Ks: ks, Form: r.Intn(2)}
+				if o.Form == 1 {
+					o.Ks = dedupInts(ks)
+				}
+			}
 		default:
 			y := r.Intn(40)
 			switch {
@@ -1405,7 +1584,7 @@ func runLong(h History, r *hx.Rand) (mm *Mismatch, cov Cov, maxLive int) {
 		if len(l) > maxLive {
 			maxLive = len(l)
 		}
-		derived := o.Op != "insert" && o.Op != "delete" && o.Op != "lookup" && o.Op != "setdefault" && o.Op != "discard" && o.Op != "popfirst"
+		derived := o.Op != "insert" && o.Op != "delete" && o.Op != "lookup" && o.Op != "setdefault" && o.Op != "discard" && o.Op != "popfirst" && o.Op != "issubset" && o.Op != "issuperset"
 		full := len(l) <= 64 || i%50 == 0 || derived || i == len(h.Ops)-1
 		var n int
 		var items [][2]int
@@ -1435,7 +1614,8 @@ func runLong(h History, r *hx.Rand) (mm *Mismatch, cov Cov, maxLive int) {
 						cls = ":lookup-value"
 					}
 				}
-				return &Mismatch{Kind: "mismatch", Class: o.Op + cls, History: h, At: i, Msg: fmt.Sprintf("lookup of key %d: found=%v value=%d", k, f, v)}, s.cov, maxLive
+				return &Mismatch{Kind: "mismatch", Class: o.Op + cls, History: h, At: i, Got: Obs{got, n, nil}, Want: Obs{wo, len(l), nil},
+					Msg: fmt.Sprintf("lookup of key %d: found=%v value=%d", k, f, v)}, s.cov, maxLive
 			}
 		}
 	}
@@ -1663,7 +1843,16 @@ func sample(n, maxops int, seed uint64) {
 	r := hx.NewRand(seed)
 	for i := 0; i < n; i++ {
 		h := sampleHistory(r.Split(), i, maxops)
-		emitObserved(h, i)
+		done := make(chan bool, 1)
+		go func() { emitObserved(h, i); done <- true }()
+		select {
+		case <-done:
+		case <-time.After(30 * time.Second):
+			hx.Emit(map[string]any{"kind": "hist", "id": i, "tkind": h.TKind, "route": h.Route, "hashes": h.Hashes, "init": h.Init, "ops": h.Ops,
+				"err": "no answer within 30 s (loop in the table?)"})
+			hx.Flush()
+			os.Exit(0)
+		}
 	}
 }
 
